@@ -9,6 +9,7 @@ import (
 	"flag"
 	"fmt"
 	"os"
+	"time"
 
 	"github.com/IrineSistiana/mosproxy/internal/zzverif/vtrace"
 )
@@ -23,6 +24,24 @@ func main() {
 	os.MkdirAll(workdir, 0o755)
 	seed = vtrace.Seed()
 	installSink()
+	// watchdog: a wedged router (spinning or deadlocked code under test) must not hang the driver
+	budget := map[string]time.Duration{"c01": 90 * time.Second, "c03": 60 * time.Second, "c13": 300 * time.Second}[*mode]
+	if budget == 0 {
+		budget = 240 * time.Second
+	}
+	if *thorough {
+		budget *= 4
+	}
+	time.AfterFunc(budget, func() {
+		instMu.Lock()
+		for _, in := range insts {
+			in.tr.Emit("hang", "what", "driver watchdog: mode "+*mode+" did not finish")
+			in.tr.Flush()
+		}
+		instMu.Unlock()
+		fmt.Println("watchdog: giving up")
+		os.Exit(3)
+	})
 	switch *mode {
 	case "c03":
 		modeC03(*thorough)
@@ -34,6 +53,8 @@ func main() {
 		modeC07(*thorough)
 	case "c12":
 		modeC12(*thorough)
+	case "c01":
+		modeC01(*thorough)
 	case "c13":
 		modeC13(*rules, *thorough)
 	case "c08":
